@@ -509,40 +509,48 @@ func (s *sharedEntryAttributes) remainsToExist() bool {
 // getRegularDeletes performs deletion calculation on elements that have a schema attached.
 func (s *sharedEntryAttributes) getRegularDeletes(deletes []DeleteEntry, aggregate bool) ([]DeleteEntry, error) {
 	var err error
-	// if entry is a container type, check the keys, to be able to
-	// issue a delte for the whole branch at once via keys
-	switch s.schema.GetSchema().(type) {
-	case *sdcpb.SchemaElem_Container:
-
-		// deletes for child elements (choice cases) that newly became inactive.
-		for _, v := range s.choicesResolvers {
-			oldBestCaseName := v.getOldBestCaseName()
-			newBestCaseName := v.getBestCaseName()
-			// so if we have an old and a new best cases (not "") and the names are different,
-			// all the old to the deletion list
-			if oldBestCaseName != "" && newBestCaseName != "" && oldBestCaseName != newBestCaseName {
-				// try fetching the case from the childs
-				oldBestCaseEntry, exists := s.childs.GetEntry(oldBestCaseName)
-				if exists {
-					deletes = append(deletes, oldBestCaseEntry)
-				} else {
-					// it might be that the child is not loaded into the tree, but just considered from the treecontext cache for the choice/case resolution
-					// if so, we create and return the DeleteEntryImpl struct
-					path, err := s.SdcpbPath()
-					if err != nil {
-						return nil, err
-					}
-					deletes = append(deletes, NewDeleteEntryImpl(path, append(s.Path(), oldBestCaseName)))
-				}
-			}
-		}
-	}
 
 	if s.shouldDelete() && !s.IsRoot() && len(s.GetSchemaKeys()) == 0 {
 		return append(deletes, s), nil
 	}
 
-	for _, e := range s.childs.GetAll() {
+	// deletes for the child elements of choice cases that are not (or no longer) the active case.
+	// They are removed as a whole if they still exist on the device (have a running value) or
+	// belong to the case that was the active one according to the intended store.
+	switch s.schema.GetSchema().(type) {
+	case *sdcpb.SchemaElem_Container:
+		for _, v := range s.choicesResolvers {
+			if v.getBestCaseName() == "" {
+				continue
+			}
+			oldBestCaseName := v.getOldBestCaseName()
+			for _, elem := range v.GetSkipElements() {
+				inactiveChild, exists := s.childs.GetEntry(elem)
+				if exists && len(inactiveChild.GetByOwner(RunningIntentName, []*LeafEntry{})) > 0 {
+					deletes = append(deletes, inactiveChild)
+					continue
+				}
+				if oldBestCaseName == "" || v.elementToCaseMapping[elem] != oldBestCaseName {
+					continue
+				}
+				if exists {
+					deletes = append(deletes, inactiveChild)
+					continue
+				}
+				// the child is not loaded into the tree, but just considered from the treecontext
+				// cache for the choice/case resolution, so the DeleteEntryImpl struct is created
+				path, err := s.SdcpbPath()
+				if err != nil {
+					return nil, err
+				}
+				path.Elem = append(path.Elem, &sdcpb.PathElem{Name: elem})
+				deletes = append(deletes, NewDeleteEntryImpl(path, append(s.Path(), elem)))
+			}
+		}
+	}
+
+	// continue with the childs of the active cases
+	for _, e := range s.filterActiveChoiceCaseChilds() {
 		deletes, err = e.GetDeletes(deletes, aggregate)
 		if err != nil {
 			return nil, err
